@@ -37,6 +37,8 @@ type Scenario struct {
 	New func() (main func(), check func(o *vsched.Outcome) (findings []Finding, tag string, nonvacuous bool))
 	// Bound is the deviation bound D for this scenario (per tier, set by the caller).
 	Bound int
+	// Family groups scenarios in the evidence (default: the name).
+	Family string
 	// MaxSteps overrides the livelock horizon.
 	MaxSteps int
 	// RacesAreFindings turns happens-before races into findings (key "race/...").
@@ -56,6 +58,7 @@ type Replay struct {
 
 type job struct {
 	sc         int
+	scEnd      int // batch of bound-0 scenarios [sc, scEnd)
 	childAbove bool
 	prefix     []int // nil + rootOnly: just the root execution
 	rootOnly   bool
@@ -146,11 +149,10 @@ func (e *Explorer) account(sc *Scenario, childAbove bool, o *vsched.Outcome, fs 
 	if nv {
 		r.Add("nonvacuous_executions", 1)
 	}
-	// distinct complete operation sequences / distinct observed outcomes
-	r.NontrivialHash(o.LogHash ^ hashStr(sc.Name))
-	if tag != "" {
-		r.Add("tagged", 1)
-		r.NontrivialHash(hashStr("tag|" + sc.Name + "|" + tag))
+	// distinct AND non-vacuous: distinct complete operation sequences of
+	// executions that exercised the scenario's situation
+	if nv {
+		r.NontrivialHash(o.LogHash ^ hashStr(sc.Name))
 	}
 	if r.WantSample() && len(o.Choices) > 0 && cost(o.Points, o.Choices) > 0 {
 		r.Sample(map[string]interface{}{"scenario": sc.Name, "child_above": childAbove, "choices_at_branching_points": trim(o.Choices), "outcome": o.Kind, "steps": o.Steps, "observed": tag})
@@ -228,23 +230,39 @@ func (e *Explorer) Run(budget time.Duration) {
 		return
 	}
 	bounds := map[string]int{}
-	for si := range e.Scenarios {
+	nscen := map[string]int{}
+	for si := 0; si < len(e.Scenarios); si++ {
 		sc := &e.Scenarios[si]
-		bounds[sc.Name] = sc.Bound
+		fam := sc.Family
+		if fam == "" {
+			fam = sc.Name
+		}
+		bounds[fam] = sc.Bound
+		nscen[fam]++
 		cfgs := []bool{false, true}
 		if sc.OnlyChildBelow {
 			cfgs = []bool{false}
 		}
-		for _, ca := range cfgs {
-			// determinism proof: the root execution three times
-			o, _, _, _ := e.run(sc, ca, nil, false)
-			for k := 0; k < 2; k++ {
-				o2, _, _, _ := e.run(sc, ca, nil, false)
-				if o2.LogHash != o.LogHash || o2.Steps != o.Steps {
-					kit.Fatalf("scenario %s: the default execution is not deterministic (log %x vs %x, steps %d vs %d)", sc.Name, o.LogHash, o2.LogHash, o.Steps, o2.Steps)
+		if sc.Bound == 0 {
+			// no deviations: one execution per configuration; batch consecutive ones
+			end := si + 1
+			for end < len(e.Scenarios) && end-si < 256 && e.Scenarios[end].Bound == 0 && e.Scenarios[end].OnlyChildBelow == sc.OnlyChildBelow {
+				f2 := e.Scenarios[end].Family
+				if f2 == "" {
+					f2 = e.Scenarios[end].Name
 				}
+				nscen[f2]++
+				end++
 			}
-			e.jobs = append(e.jobs, job{sc: si, childAbove: ca, rootOnly: true})
+			for _, ca := range cfgs {
+				e.jobs = append(e.jobs, job{sc: si, scEnd: end, childAbove: ca, rootOnly: true})
+			}
+			si = end - 1
+			continue
+		}
+		for _, ca := range cfgs {
+			o, _, _, _ := e.run(sc, ca, nil, false)
+			e.jobs = append(e.jobs, job{sc: si, scEnd: si + 1, childAbove: ca, rootOnly: true})
 			for i := 0; i < len(o.Points); i++ {
 				for alt := 1; alt < len(o.Points[i].Costs); alt++ {
 					if int(o.Points[i].Costs[alt]) > sc.Bound {
@@ -257,6 +275,7 @@ func (e *Explorer) Run(budget time.Duration) {
 			}
 		}
 	}
+	r.Set("scenarios_per_family", nscen)
 	r.Set("deviation_bounds", bounds)
 	r.Set("subtree_jobs", len(e.jobs))
 	kit.CaseTimeout = budget + 10*time.Minute
@@ -264,8 +283,16 @@ func (e *Explorer) Run(budget time.Duration) {
 		j := e.jobs[i]
 		sc := &e.Scenarios[j.sc]
 		if j.rootOnly {
-			o, fs, tag, nv := e.run(sc, j.childAbove, nil, false)
-			e.account(sc, j.childAbove, o, fs, tag, nv, 0)
+			for si := j.sc; si < j.scEnd; si++ {
+				sc := &e.Scenarios[si]
+				o, fs, tag, nv := e.run(sc, j.childAbove, nil, false)
+				// determinism proof: the default execution again, identical log
+				o2, _, _, _ := e.run(sc, j.childAbove, nil, false)
+				if o2.LogHash != o.LogHash || o2.Steps != o.Steps {
+					kit.Fatalf("scenario %s: the default execution is not deterministic (log %x vs %x, steps %d vs %d)", sc.Name, o.LogHash, o2.LogHash, o.Steps, o2.Steps)
+				}
+				e.account(sc, j.childAbove, o, fs, tag, nv, 0)
+			}
 			return
 		}
 		e.explore(sc, j.childAbove, j.prefix)
